@@ -1656,7 +1656,20 @@ impl World {
                 .map(|(k, v)| (k.clone(), v.clone()))
                 .collect();
             let expect = fresh_obs(&intact);
-            match fresh_on(&dmg) {
+            let opened = fresh_on(&dmg);
+            if self.ptrace_on {
+                // the model opens a replica on the same damaged store
+                let store: Map<String, Value> = dmg.iter().map(|(k, v)| (k.clone(), Value::from(hex::encode(v)))).collect();
+                let mut o = Map::new();
+                o.insert("p".into(), json!("probe"));
+                o.insert("r".into(), json!(r));
+                o.insert("res".into(), json!(if opened.is_ok() { "ok" } else { "err" }));
+                o.insert("store".into(), Value::from(store));
+                o.insert("obs".into(), opened.as_ref().map(model_obs).unwrap_or(Value::Null));
+                o.insert("damage".into(), json!(desc.join(", ")));
+                self.ptrace.push(js(&Value::from(o)));
+            }
+            match opened {
                 Err(e) => {
                     if e.starts_with("panic") {
                         fails.push(("C10", format!("opening damaged storage ({}) aborts: {}", desc.join(", "), e)));
